@@ -15,7 +15,7 @@ func init() {
 	register(&Property{
 		ID:      "C15",
 		NeedSSA: true,
-		Decided: "Structural necessary conditions for freedom from data races on shared state: (globals) no package-level variable of the library is written outside package initialisation, except the two classified ones: the bufio reader pool map, every access to which is preceded by Lock of its mutex in the same function, and the created-by string, written only inside a sync.Once; a write is a store, a map update, a copy/clear into, a callee that writes through its parameter, or an append to a shortened re-slice (`g[:0]`, `g[:n]`, capacity kept) of a package-level slice, array or map; (immutable) package-level values shared by every writer and reader (encodings, codecs, types) have no method that writes a field of its receiver other than through sync/atomic/pool types; (cow) a map published through atomic.Value is never updated after the Store that publishes it — neither the map itself nor a map stored in it — and a map obtained from Load is never updated; (release) a buffer given back to a pool through a struct field is cleared from that field on every path, so it cannot be returned twice and handed to two owners; (wire) no call passes a struct field in the position of the parameter named after a sibling field (reference-counted level buffers handed to the wrong slot lose their reference); (async) the page-reading goroutine shares nothing but channels and the reader it owns with the consumer; (commit) row-group writers other than through Commit write no state of the parent writer; (construct) see C18.construct for the encryption state of concurrently filled row groups. (reentrant) a function that returns a closure and is not itself only called per operation returns a closure without state of its own: the closure assigns no captured variable, stores through no captured factory-allocated pointer/slice/map and calls no reflect setter on a captured reflect.Value. (atomic) no function both updates (Add/And/Or) and reloads the same atomic field; (globals, cont.) the lock call dominates every access to the guarded map. (commitorder) in ConcurrentRowGroupWriter.Commit the call that records the committed row group (it hands the receiver to a method of the parent writer that stores into writer.rowGroups) is dominated by another call of a parent-writer method that reaches the same recorder: the parent's own buffered rows are written first, on every path. (putclear) a function that hands the object held in a field of its receiver back to a pool (through a callee that puts its parameter into a memory.Pool / sync.Pool without reference counting) overwrites that field on every path to a return. (globals, cont.) copying or clearing into the memory of a package-level slice, array or map (seen through phis, re-slicing and module helpers that return the slice they are given), or handing it to a module function that writes through its parameter, counts as a write of the variable. (bucket) every allocation function handed to slicePools[i].Get in internal/memory sizes the new slice with bucketSize(i) for the same i: the pools are process-wide and their users re-slice what they get up to the bucket size.",
+		Decided: "Structural necessary conditions for freedom from data races on shared state: (globals) no package-level variable of the library is written outside package initialisation, except the two classified ones: the bufio reader pool map, every access to which is preceded by Lock of its mutex in the same function, and the created-by string, written only inside a sync.Once; a write is a store, a map update, a copy/clear into, a callee that writes through its parameter, or an append to a shortened re-slice (`g[:0]`, `g[:n]`, capacity kept) of a package-level slice, array or map; (immutable) package-level values shared by every writer and reader (encodings, codecs, types) have no method that writes a field of its receiver other than through sync/atomic/pool types; (cow) a map published through atomic.Value is never updated after the Store that publishes it — neither the map itself nor a map stored in it — and a map obtained from Load is never updated; (release) a buffer given back to a pool through a struct field is cleared from that field on every path, so it cannot be returned twice and handed to two owners; (wire) no call passes a struct field in the position of the parameter named after a sibling field (reference-counted level buffers handed to the wrong slot lose their reference); (async) the page-reading goroutine shares nothing but channels and the reader it owns with the consumer, and the page it sends in an iteration of its loop is not a value carried over from an earlier iteration; (commit) row-group writers other than through Commit write no state of the parent writer; (construct) see C18.construct for the encryption state of concurrently filled row groups. (reentrant) a function that returns a closure and is not itself only called per operation returns a closure without state of its own: the closure assigns no captured variable, stores through no captured factory-allocated pointer/slice/map and calls no reflect setter on a captured reflect.Value. (atomic) no function both updates (Add/And/Or) and reloads the same atomic field; (globals, cont.) the lock call dominates every access to the guarded map. (commitorder) in ConcurrentRowGroupWriter.Commit the call that records the committed row group (it hands the receiver to a method of the parent writer that stores into writer.rowGroups) is dominated by another call of a parent-writer method that reaches the same recorder: the parent's own buffered rows are written first, on every path. (putclear) a function that hands the object held in a field of its receiver back to a pool (through a callee that puts its parameter into a memory.Pool / sync.Pool without reference counting) overwrites that field on every path to a return. (globals, cont.) copying or clearing into the memory of a package-level slice, array or map (seen through phis, re-slicing and module helpers that return the slice they are given), or handing it to a module function that writes through its parameter, counts as a write of the variable. (bucket) every allocation function handed to slicePools[i].Get in internal/memory sizes the new slice with bucketSize(i) for the same i: the pools are process-wide and their users re-slice what they get up to the bucket size.",
 		NotDecided: "deadlock freedom, scheduling, equality with a serial run, races inside dependencies or assembly, correctness of the reference counts as numbers.",
 		Assumptions: []string{"sync, sync/atomic and internal/memory.Pool are correct", "writes through unsafe pointers and reflection are not seen"},
 		Run:         runC15,
@@ -30,6 +30,7 @@ func runC15(c *Ctx) {
 	c15Release(c)
 	c15Wire(c, "C15.wire")
 	c15Async(c)
+	c15AsyncFresh(c)
 	c15Commit(c)
 	c15CommitOrder(c)
 	runPutClearRule(c, "C15.putclear", 1)
